@@ -4,12 +4,13 @@ from evalutil import *
 
 ID = "C06"
 LEVEL = "proof"
-MODULES = ["H3Proofs.Props.C06"]
+MODULES = ["H3Proofs.Props.C06", "H3Proofs.Props.C06Spec"]
 THEOREMS = "auto"
 ASSUMPTIONS = ["layout-faithful model of compactCells (hash table with parent % n probing, reserved-bit counters, "
                "exact output slots) and uncompactCells tied to the code by exact array correspondence"]
-NOT_PROVED = ["compactImpl_refines_spec (the hash-table implementation computes the set-level compaction) is "
-              "exercised by correspondence + evaluator, not yet a theorem"]
+NOT_PROVED = ["compactImpl_refines_spec (the hash-table implementation computes the set-level compaction `compactSpec`) "
+              "is exercised by correspondence (op compactS) + evaluator, not a theorem; the set-level theorems of C06Spec "
+              "are proved for an abstract forest whose axioms are those C04Children proves of the digit tree"]
 EXPLANATION = ("bounds/error theorems on the model; exact array correspondence of compactCells; the evaluator checks "
                "round trip, antichain, no complete sibling family, validity, size and order independence on the real "
                "library with a python digit-tree oracle")
@@ -25,8 +26,34 @@ def _sets(rng, tier):
     return sets
 
 
+def _small_sets(rng, tier):
+    """small sets with complete sub-trees at several depths (for the quadratic set-level specification)"""
+    out = []
+    for _ in range(150 if tier == "quick" else 1500):
+        res = rng.randrange(0, 16)
+        s = set()
+        for _ in range(rng.randrange(1, 6)):
+            if len(s) > 250:
+                break
+            depth = rng.choice([0, 0, 1, 1, 2, 2, 3]) if res > 0 else 0
+            depth = min(depth, res)
+            top = gen.rand_cell(rng, res=res - depth)
+            if rng.random() < 0.3:   # a pentagon (all-zero digits below a pentagon base cell)
+                top = gen.mkcell(res - depth, rng.choice(sorted(gen.PENT_SET)), [0] * (res - depth))
+            kids = gen.children(top, res)
+            if rng.random() < 0.5 and len(kids) > 1:   # incomplete family
+                kids = rng.sample(kids, rng.randrange(1, len(kids)))
+            s.update(kids)
+        out.append(list(s)[:400])
+    return out
+
+
 def streams(rng, tier):
     ops, ops2 = [], []
+    ops3 = []
+    for s in _small_sets(rng, tier):
+        rng.shuffle(s)
+        ops3.append(f"compactS {len(s)} " + " ".join(gen.hx(c) for c in s))
     for s in _sets(rng, tier):
         for _ in range(2):
             rng.shuffle(s)
@@ -47,7 +74,7 @@ def streams(rng, tier):
             ops2.append(f"uncompactsize {len(t)} {' '.join(gen.hx(c) for c in t)} {r}")
             ops2.append(f"uncompact {len(t)} {' '.join(gen.hx(c) for c in t)} {r} {rng.randrange(0, 60)}")
     ops2.append("compact 0")
-    return [("compact", ops), ("compact-errors-uncompact", ops2)]
+    return [("compact", ops), ("compact-errors-uncompact", ops2), ("compact-vs-set-specification", ops3)]
 
 
 def ancestors(h):
@@ -56,7 +83,7 @@ def ancestors(h):
 
 
 def evaluate(ctx, rng, tier, focus, budget, broken):
-    sets = _sets(rng, tier)
+    sets = [s for s in _sets(rng, tier) if s]
     viol_ = []
     ops = []
     orders = []
